@@ -89,6 +89,18 @@ fn gen(rng: &mut Rng, i: u64) -> String {
 			0 => 1, 1 => 2, 2 => 4, 3 => 8, 4 => len as u64, 5 => 1 << 32, 6 => 1 << 63, 7 => rng.below(0x400), 8 => u64::MAX, _ => 0,
 		}
 	};
+	// min_size exactly at what is left: the bytes between the address and the end of the stored data of its first containing
+	// section (file view) resp. the end of the buffer (mapped view), one less and one more
+	let secs_c = spec.secs.clone();
+	let rest_min = |rng: &mut Rng, a: u32| -> u64 {
+		let rest: u64 = if file {
+			match secs_c.iter().find(|s| a >= s.va && (a as u64) < s.va as u64 + s.vs.max(s.srd) as u64) {
+				Some(s) => (s.srd as u64).saturating_sub((a - s.va) as u64),
+				None => (len as u64).saturating_sub(a as u64),
+			}
+		} else { (len as u64).saturating_sub(a as u64) };
+		match rng.below(3) { 0 => rest, 1 => rest + 1, _ => rest.saturating_sub(1) }
+	};
 	for _ in 0..nq {
 		let a = addr(rng);
 		let va = |rng: &mut Rng, a: u32| -> u64 {
@@ -101,8 +113,8 @@ fn gen(rng: &mut Rng, i: u64) -> String {
 		match rng.below(19) {
 			0 => qs.push(format!("r2f:{}", a)),
 			1 => qs.push(format!("f2r:{}", if rng.chance(1, 16) { rng.next() } else { a as u64 })),
-			2 | 3 => qs.push(format!("sl:{}:{}:{}", a, mins(rng, len), al)),
-			4 => qs.push(format!("rd:{}:{}:{}", va(rng, a), mins(rng, len), al)),
+			2 | 3 => qs.push(format!("sl:{}:{}:{}", a, if rng.chance(1, 4) { rest_min(rng, a) } else { mins(rng, len) }, al)),
+			4 => qs.push(format!("rd:{}:{}:{}", va(rng, a), if rng.chance(1, 4) { rest_min(rng, a) } else { mins(rng, len) }, al)),
 			5 => qs.push(format!("r2v:{}", a)),
 			6 => qs.push(format!("v2r:{}", va(rng, a))),
 			7 => qs.push(format!("gsb:{}", rng.below(spec.secs.len() as u64 + 1))),
